@@ -39,8 +39,11 @@ class Worker:
             sh(["git", "-C", self.repo, "checkout", "--", "."])
             sh(["git", "-C", self.repo, "checkout", "--detach", head])
         os.makedirs(self.verif, exist_ok=True)
+        # FCV_SNAPSHOT_SRC: take the snapshot from a frozen copy (e.g. a clone of a commit)
+        # instead of the working directory, so that /verif can be edited meanwhile
+        src = os.environ.get("FCV_SNAPSHOT_SRC", ROOT)
         r = sh(["rsync", "-a", "--delete", "--exclude", ".git", "--exclude", "target*", "--exclude", "evidence", "--exclude", "replays",
-                "--exclude", "autotraits_work", "--exclude", "seeded", "--exclude", "__pycache__", ROOT + "/", self.verif + "/"])
+                "--exclude", "autotraits_work", "--exclude", "seeded", "--exclude", "refactors", "--exclude", "__pycache__", src + "/", self.verif + "/"])
         if r.returncode != 0:
             raise SystemExit(r.stdout)
 
